@@ -396,10 +396,8 @@ def build_main(tab, single_seg_mods, reimport=None, blind=False, fparams=None, p
         for (i, s, ms) in tab["IM"]:
             if s != k:
                 continue
-            has_statics = any(st[0] == (i or "-") and st[1] == k for st in tab["ST"])
             for m, b in ms:
-                # (known finding C18-impl-static-direct-receiver: no direct call when the block has statics)
-                if tab["F"].get("%s::%s" % (k, m)) == b and not has_statics:
+                if tab["F"].get("%s::%s" % (k, m)) == b:
                     lines.append('int rm%d_%s = %s.%s(2); println("=", rm%d_%s);' % (n, m, v, m, n, m))
             if i and i in tab["N"] and not blind and (parse_visible is None or i in parse_visible):
                 # an interface-typed variable needs the parse-time import
